@@ -1667,7 +1667,9 @@ MANIFEST = {
     "text": "Lean 4 theorems over an executable model of the planner termination conditions (predicate conditions report "
             "the predicate, terminate() is sticky through every or/and nesting and every later operation, or/and values and "
             "which operands run, constant conditions, the iteration condition's evaluations 1..n / n+1.., timed conditions "
-            "over any monotone clock, the polled form's one-poll lag, exact-solution mirroring, the cost-convergence "
+            "over any monotone clock, the polled form's one-poll lag and - over a step machine of the poller loop with its "
+            "sleeps, whose schedule (count, sleep length) is observed on the real poller thread through an interposed "
+            "nanosleep - 'true no later than one period afterwards' in every interleaving, exact-solution mirroring, the cost-convergence "
             "recurrence over the rationals firing at the first qualifying solution and staying fired, Planner::solve(double)'s "
             "choice of form), for every trace, nesting, n, duration and interleaving by induction; tied to the code by "
             "line-by-line differential runs of the real libompl conditions against the compiled model (scripted leaves with "
